@@ -260,6 +260,9 @@ Definition oid_grow (s s' : state) : Prop :=
 Lemma oid_le_refl s : oid_le s s.
 Proof. split; [reflexivity|]. intros; lia. Qed.
 
+Lemma oid_le_trans a b c : oid_le a b -> oid_le b c -> oid_le a c.
+Proof. intros [E1 H1] [E2 H2]. split; [congruence|]. intros i. specialize (H1 i). specialize (H2 i). lia. Qed.
+
 Lemma oid_le_gen s s' : st_next_oid s' = st_next_oid s ->
   (forall i, cnt (tok_oids (st_tokens s')) i <= cnt (tok_oids (st_tokens s)) i)%nat ->
   (forall i, cnt (akeys (st_sobjs s')) i <= cnt (akeys (st_sobjs s)) i)%nat -> oid_le s s'.
@@ -390,5 +393,300 @@ Proof.
   all: try (left; eapply oid_le_put_object; eassumption).
   all: try (left; apply oid_le_same; rewrite ?upd_session_next_oid, ?upd_session_tokens, ?upd_session_sobjs; reflexivity).
   all: try (left; apply oid_le_gen; [rewrite ?upd_token_next_oid; reflexivity|apply tok_oids_upd_frame; reflexivity|rewrite upd_token_sobjs; intros; lia]).
-  Show.
-Abort.
+  - (* re-initialisation: the token's objects are dropped *)
+    left. apply oid_le_gen; simp_state; [reflexivity| |intros; lia]. intros i.
+    match goal with H : alookup n (st_tokens s) = Some ?t0 |- context [aset n ?t' _] => pose proof (tok_oids_aset _ _ _ t' i H) as Hc end.
+    cbn [t_objs] in Hc. change (cnt (akeys (@nil (N * obj))) i) with 0%nat in Hc. lia.
+  - (* fresh token without objects *)
+    left. apply oid_le_gen; simp_state; [reflexivity| |intros; lia]. intros i.
+    rewrite tok_oids_app, cnt_app. cbn [tok_oids flat_map snd t_objs]. change (cnt (akeys (@nil (N * obj)) ++ []) i) with 0%nat. lia.
+  - (* close, other sessions remain *)
+    left. apply oid_le_gen; unfold purge_handles; simp_state; [reflexivity|intros; lia|intros; apply cnt_keys_filter].
+  - (* logout *)
+    left. apply oid_le_gen; unfold purge_handles; simp_state;
+      [rewrite upd_token_next_oid; reflexivity|apply tok_oids_upd_frame; reflexivity|intros i; rewrite upd_token_sobjs; apply cnt_keys_filter].
+  - (* create *)
+    destruct (negb (tmpl_bool CKA_TOKEN tm 0 =? 0)).
+    + apply oid_grow_new; [rewrite upd_token_next_oid; reflexivity|intros i; apply cnts_new_tokobj].
+    + change (st_sobjs (set_next_oid s (st_next_oid s + 1))) with (st_sobjs s).
+      apply oid_grow_new; [reflexivity|intros i; apply cnts_new_sobj].
+  - (* copy *)
+    match goal with |- context [if ?c then upd_token _ _ _ else _] => destruct c end.
+    + apply oid_grow_new; [rewrite upd_token_next_oid; reflexivity|intros i; apply cnts_new_tokobj].
+    + change (st_sobjs (set_next_oid s (st_next_oid s + 1))) with (st_sobjs s).
+      apply oid_grow_new; [reflexivity|intros i; apply cnts_new_sobj].
+  - (* destroy *)
+    left. eapply oid_le_trans; [|apply oid_le_del_object]. apply oid_le_same; reflexivity.
+  - (* findinit *)
+    match goal with H : find_loop _ _ _ _ _ _ _ _ = Some _ |- _ =>
+      pose proof (find_loop_next_oid _ _ _ _ _ _ _ _ _ _ H) as F0; apply find_loop_frame in H; destruct H as (F1 & F2 & F3 & F4) end.
+    left. apply oid_le_same; rewrite ?upd_session_next_oid, ?upd_session_tokens, ?upd_session_sobjs; assumption.
+Qed.
+
+(* the id counter never decreases — not even over a restart *)
+Theorem next_oid_mono (s : state) (o : op) : st_next_oid s <= st_next_oid (fst (step s o)).
+Proof. destruct (step_oid_grow s o) as [[E _]|[E _]]; rewrite E; lia. Qed.
+
+Theorem exec_next_oid_mono (ops : list op) : forall s, st_next_oid s <= st_next_oid (exec s ops).
+Proof.
+  unfold exec. induction ops as [|o r IH]; intros s; cbn [fold_left]; [lia|].
+  pose proof (next_oid_mono s o). specialize (IH (fst (step s o))). lia.
+Qed.
+
+Lemma restart_next_oid (s : state) (b : bool) : st_next_oid (restart s b) = st_next_oid s.
+Proof. reflexivity. Qed.
+
+(* an id present after a step was present before, or it is the id just issued *)
+Lemma oid_grow_In s s' i :
+  oid_grow s s' -> In i (oids s') -> In i (oids s) \/ (i = st_next_oid s /\ st_next_oid s' = st_next_oid s + 1).
+Proof.
+  intros [[E H]|[E H]] Hi; apply cnt_In in Hi; fold (cnts s' i) in Hi; specialize (H i).
+  - left. apply cnt_In. fold (cnts s i). lia.
+  - destruct (i =? st_next_oid s) eqn:Ei.
+    + right. apply N.eqb_eq in Ei. auto.
+    + left. apply cnt_In. fold (cnts s i). lia.
+Qed.
+
+Lemma inv_oid_init : inv_oid init_state.
+Proof. intros i []. Qed.
+Lemma inv_uniq_init : inv_uniq init_state.
+Proof. constructor. Qed.
+
+Theorem step_inv_oid (s : state) (o : op) : inv_oid s -> inv_oid (fst (step s o)).
+Proof.
+  intros Hinv i Hi. pose proof (next_oid_mono s o) as Hm.
+  apply (oid_grow_In _ _ _ (step_oid_grow s o)) in Hi. destruct Hi as [Hi|[E1 E2]].
+  - apply Hinv in Hi. lia.
+  - rewrite E2. lia.
+Qed.
+
+Theorem step_inv_uniq (s : state) (o : op) : inv_oid s -> inv_uniq s -> inv_uniq (fst (step s o)).
+Proof.
+  unfold inv_uniq. intros Hinv Hu. rewrite (NoDup_count_occ N.eq_dec) in *. intros i.
+  specialize (Hu i). fold (cnt (oids s) i) in Hu. fold (cnt (oids (fst (step s o))) i). fold (cnts s i) in Hu. fold (cnts (fst (step s o)) i).
+  destruct (step_oid_grow s o) as [[_ H]|[_ H]]; specialize (H i); [lia|].
+  destruct (i =? st_next_oid s) eqn:Ei; [|lia]. apply N.eqb_eq in Ei.
+  assert (cnts s i = 0)%nat; [|lia].
+  destruct (cnts s i) eqn:Ec; [reflexivity|]. exfalso.
+  assert (Hin : In i (oids s)) by (apply cnt_In; fold (cnts s i); lia). apply Hinv in Hin. lia.
+Qed.
+
+Definition inv_oids (s : state) : Prop := inv_oid s /\ inv_uniq s.
+
+Theorem exec_inv_oids (ops : list op) : forall s, inv_oids s -> inv_oids (exec s ops).
+Proof.
+  unfold exec. induction ops as [|o r IH]; intros s [H1 H2]; cbn [fold_left]; [split; assumption|].
+  apply IH. split; [apply step_inv_oid; exact H1|apply step_inv_uniq; assumption].
+Qed.
+
+Theorem inv_oids_reachable (ops : list op) : inv_oids (exec init_state ops).
+Proof. apply exec_inv_oids. split; [apply inv_oid_init|apply inv_uniq_init]. Qed.
+
+(* an id below the counter that is absent stays absent (and below the counter): no invariant needed *)
+Lemma absent_step (s : state) (o : op) (i : N) :
+  i < st_next_oid s -> ~ In i (oids s) ->
+  i < st_next_oid (fst (step s o)) /\ ~ In i (oids (fst (step s o))).
+Proof.
+  intros Hlt Hn. pose proof (next_oid_mono s o). split; [lia|]. intros Hi.
+  apply (oid_grow_In _ _ _ (step_oid_grow s o)) in Hi. destruct Hi as [Hi|[E _]]; [contradiction|lia].
+Qed.
+
+Theorem absent_never_reappears (ops : list op) : forall (s : state) (i : N),
+  i < st_next_oid s -> ~ In i (oids s) -> ~ In i (oids (exec s ops)).
+Proof.
+  unfold exec. induction ops as [|o r IH]; intros s i Hlt Hn; cbn [fold_left]; [exact Hn|].
+  destruct (absent_step s o i Hlt Hn) as [H1 H2]. apply IH; assumption.
+Qed.
+
+Theorem destroyed_never_reappears (s : state) (i : N) :
+  inv_oid s -> i < st_next_oid s -> ~ In i (oids s) -> forall ops, ~ In i (oids (exec s ops)).
+Proof. intros _ Hlt Hn ops. apply absent_never_reappears; assumption. Qed.
+
+(* every id ever present is below the counter, so: once gone, gone for ever *)
+Corollary gone_is_gone (ops1 ops2 ops3 : list op) (i : N) :
+  let s1 := exec init_state ops1 in
+  let s2 := exec s1 ops2 in
+  In i (oids s1) -> ~ In i (oids s2) -> ~ In i (oids (exec s2 ops3)).
+Proof.
+  intros s1 s2 H1 H2. apply absent_never_reappears; [|exact H2].
+  destruct (inv_oids_reachable ops1) as [Hinv _]. apply Hinv in H1. fold s1 in H1.
+  pose proof (exec_next_oid_mono ops2 s1). fold s2 in H. lia.
+Qed.
+
+(* C_DestroyObject removes the id of the object it destroys from all stores *)
+Definition loc_oid (l : oloc) : N := match l with LTok _ oid => oid | LSess oid => oid end.
+
+Lemma lookup_cnt {A} (l : list (N * A)) k v : alookup k l = Some v -> (1 <= cnt (akeys l) k)%nat.
+Proof. intros H. apply alookup_keys in H. apply cnt_In in H. lia. Qed.
+
+Lemma get_object_oid_In s oh e l ob : get_object s oh = Some (e, l, ob) -> In (loc_oid l) (oids s).
+Proof.
+  intros H. unfold oids. apply in_or_app. destruct l as [k oid|oid]; cbn [loc_oid].
+  - left. apply get_object_tok in H. destruct H as (t & Ht & Ho). eapply tok_oids_lookup; [exact Ht|]. eapply alookup_keys. exact Ho.
+  - right. apply get_object_sess in H. destruct H as [so Hso]. eapply alookup_keys. exact Hso.
+Qed.
+
+Lemma del_object_removes s s1 oh e l ob :
+  inv_uniq s -> get_object s oh = Some (e, l, ob) -> st_tokens s1 = st_tokens s -> st_sobjs s1 = st_sobjs s ->
+  ~ In (loc_oid l) (oids (del_object s1 l)).
+Proof.
+  unfold inv_uniq. intros Hu Hg E1 E2 Hin. rewrite (NoDup_count_occ N.eq_dec) in Hu. specialize (Hu (loc_oid l)).
+  fold (cnt (oids s) (loc_oid l)) in Hu. fold (cnts s (loc_oid l)) in Hu. rewrite cnts_eq in Hu.
+  apply cnt_In in Hin. fold (cnts (del_object s1 l) (loc_oid l)) in Hin. rewrite cnts_eq in Hin.
+  destruct l as [k oid|oid]; cbn [loc_oid del_object] in *.
+  - apply get_object_tok in Hg. destruct Hg as (t & Ht & Ho). apply lookup_cnt in Ho.
+    pose proof (tok_oids_lookup_le _ _ _ oid Ht).
+    rewrite upd_token_sobjs, tok_oids_upd, E1, E2, Ht in Hin. cbn [t_objs set_t_objs] in Hin. rewrite cnt_keys_aremove in Hin. lia.
+  - apply get_object_sess in Hg. destruct Hg as [so Hso]. apply lookup_cnt in Hso. simp_state.
+    rewrite cnt_keys_aremove, E1 in Hin. lia.
+Qed.
+
+Theorem destroy_removes_oid (s : state) (h oh : N) e l ob :
+  inv_uniq s -> get_object s oh = Some (e, l, ob) -> snd (step s (ODestroy h oh)) = RRv CKR_OK ->
+  In (loc_oid l) (oids s) /\ ~ In (loc_oid l) (oids (fst (step s (ODestroy h oh)))).
+Proof.
+  intros Hu Hg Hok. split; [eapply get_object_oid_In; exact Hg|]. revert Hok.
+  unfold step. repeat (first [break_match | break_let]; cbn [fst snd]); try discriminate.
+  - intros H. inversion H as [H1]. rewrite H1 in *. cbn in *. discriminate.
+  - intros _. inversion Hg; subst. eapply del_object_removes; [exact Hu|eassumption|reflexivity|reflexivity].
+Qed.
+
+(* ... for ever, in a reachable state *)
+Corollary destroyed_object_never_reappears (ops0 : list op) (h oh : N) e l ob :
+  let s := exec init_state ops0 in
+  get_object s oh = Some (e, l, ob) -> snd (step s (ODestroy h oh)) = RRv CKR_OK ->
+  forall ops, ~ In (loc_oid l) (oids (exec (fst (step s (ODestroy h oh))) ops)).
+Proof.
+  intros s Hg Hok ops. destruct (inv_oids_reachable ops0) as [Hinv Hu]. fold s in Hinv, Hu.
+  destruct (destroy_removes_oid s h oh e l ob Hu Hg Hok) as [Hin Hout].
+  apply absent_never_reappears; [|exact Hout]. apply Hinv in Hin. pose proof (next_oid_mono s (ODestroy h oh)). lia.
+Qed.
+
+(* an absent id denotes no object: no handle resolves to it *)
+Lemma absent_oid_no_object s oh e l ob : get_object s oh = Some (e, l, ob) -> ~ In (loc_oid l) (oids s) -> False.
+Proof. intros H Hn. apply Hn. eapply get_object_oid_In. exact H. Qed.
+
+(* ---- 5. session objects die with their session ------------------------------------------------------ *)
+(* closing a session: none of its session objects, no handle of an object it owns, and not its own
+   handle is left.  When it was the last session of its token the code drops everything of the token;
+   that this covers the session's own objects is the linkage invariant [inv_tok] (TokenFacts.v), true in
+   every reachable state. *)
+Theorem close_kills_session_objects (s : state) (h : N) (x : session) :
+  inv_tok s -> st_init s = true -> get_session s h = Some x ->
+  let s' := fst (step s (OClose h)) in
+  (forall p, In p (st_sobjs s') -> so_sess (snd p) <> h) /\
+  (forall p, In p (st_handles s') -> fst p <> h /\ (h_kind (snd p) = CKH_OBJECT -> h_sess (snd p) <> h)) /\
+  get_session s' h = None.
+Proof.
+  intros Hinv Hi Hx. cbv zeta. unfold step. rewrite Hi. cbn [negb]. cbv iota. rewrite Hx.
+  assert (Hgs : forall s1, (forall p, In p (st_handles s1) -> fst p <> h) -> get_session s1 h = None).
+  { intros s1 H. unfold get_session. destruct (alookup h (st_handles s1)) as [e|] eqn:E; [|reflexivity].
+    apply alookup_In in E. apply H in E. cbn in E. congruence. }
+  destruct (other_session_on s (s_tok x) h) eqn:Eo; cbn [fst].
+  - unfold purge_handles. simp_state.
+    assert (Hh : forall p, In p (filter (fun p : N * hentry => negb ((fst p =? h) || (h_kind (snd p) =? CKH_OBJECT) && (h_sess (snd p) =? h))) (st_handles s)) ->
+                 fst p <> h /\ (h_kind (snd p) = CKH_OBJECT -> h_sess (snd p) <> h)).
+    { intros [i e] Hp. apply filter_In in Hp. destruct Hp as [Hin Hp]. cbn [fst snd] in *.
+      apply negb_true_iff, orb_false_iff in Hp. destruct Hp as [Hp1 Hp2]. apply N.eqb_neq in Hp1. split; [exact Hp1|].
+      intros Ek Es. rewrite Ek, Es, !N.eqb_refl in Hp2. discriminate. }
+    split; [|split; [exact Hh|]].
+    + intros p Hp. apply filter_In in Hp. destruct Hp as [_ Hp]. apply negb_true_iff, N.eqb_neq in Hp. exact Hp.
+    + apply Hgs. simp_state. intros p Hp. apply Hh in Hp. tauto.
+  - assert (Hh : forall p, In p (st_handles (close_all s (s_tok x))) ->
+                 fst p <> h /\ (h_kind (snd p) = CKH_OBJECT -> h_sess (snd p) <> h)).
+    { destruct (close_all_handles s (s_tok x)) as [E _]. rewrite E. intros [i e] Hp. apply filter_In in Hp.
+      destruct Hp as [Hin Hp]. cbn [fst snd] in *. apply negb_true_iff, N.eqb_neq in Hp. split.
+      - intro Ei. subst i. apply Hp. eapply inv_session_handle; eauto.
+      - intros _ Es. apply Hp. eapply inv_owned_handle; eauto. }
+    split; [|split; [exact Hh|]].
+    + rewrite close_all_sobjs. intros [i so] Hp. apply filter_In in Hp. destruct Hp as [Hin Hp]. cbn [fst snd] in *.
+      apply negb_true_iff, N.eqb_neq in Hp. intro Es. apply Hp. eapply inv_owned_sobj; eauto.
+    + apply Hgs. intros p Hp. apply Hh in Hp. tauto.
+Qed.
+
+(* C_CloseAllSessions: no session object, session or handle of that token is left; nobody logged in *)
+Theorem closeall_kills_session_objects (s : state) (k : N) :
+  st_init s = true -> amem k (st_tokens s) = true ->
+  let s' := fst (step s (OCloseAll (TTok k))) in
+  (forall p, In p (st_sobjs s') -> so_tok (snd p) <> k) /\
+  (forall p, In p (st_sessions s') -> s_tok (snd p) <> k) /\
+  (forall p, In p (st_handles s') -> h_tok (snd p) <> k) /\
+  tok_login s' k = LNone /\
+  (forall k', tok_objs s' k' = tok_objs s k').
+Proof.
+  intros Hi Hk. cbv zeta. unfold step. rewrite Hi. cbn [negb resolve]. cbv iota. rewrite Hk. cbn [fst].
+  destruct (close_all_handles s k) as [E _]. rewrite E, close_all_sobjs, close_all_sessions.
+  repeat split; try (intros p Hp; apply filter_In in Hp; destruct Hp as [_ Hp]; apply negb_true_iff, N.eqb_neq in Hp; exact Hp).
+  - rewrite close_all_login, N.eqb_refl. reflexivity.
+  - intros k'. apply tok_objs_close_all.
+Qed.
+
+(* a restart (C_Finalize, C_Initialize of a fresh library instance, a new process): no session object
+   at all is left, while every token object is (restart_keeps_objs) *)
+Theorem restart_kills_session_objects (s : state) (b : bool) :
+  st_sobjs (restart s b) = [] /\ st_sessions (restart s b) = [] /\ st_handles (restart s b) = [] /\
+  forall k, tok_objs (restart s b) k = tok_objs s k.
+Proof. repeat split. intros k. apply restart_keeps_objs. Qed.
+
+Theorem restart_ops_kill_session_objects (s : state) (o : op) :
+  is_restart o = true -> rv_of (snd (step s o)) = Some CKR_OK ->
+  st_sobjs (fst (step s o)) = [] /\ forall k, tok_objs (fst (step s o)) k = tok_objs s k.
+Proof.
+  destruct o; try discriminate; intros _; unfold step; destruct (st_init s); cbn [fst snd rv_of]; intros H;
+    try (split; [reflexivity|intros k; apply restart_keeps_objs]); try discriminate H.
+Qed.
+
+Theorem session_objects_die (s : state) :
+  (forall h x, inv_tok s -> st_init s = true -> get_session s h = Some x ->
+     forall p, In p (st_sobjs (fst (step s (OClose h)))) -> so_sess (snd p) <> h) /\
+  (forall k, st_init s = true -> amem k (st_tokens s) = true ->
+     forall p, In p (st_sobjs (fst (step s (OCloseAll (TTok k))))) -> so_tok (snd p) <> k) /\
+  (forall b, st_sobjs (restart s b) = []).
+Proof.
+  split; [|split].
+  - intros h x Hinv Hi Hx. apply (close_kills_session_objects s h x Hinv Hi Hx).
+  - intros k Hi Hk. apply (closeall_kills_session_objects s k Hi Hk).
+  - reflexivity.
+Qed.
+
+Corollary session_objects_die_reachable (ops : list op) (h : N) (x : session) :
+  let s := exec init_state ops in
+  st_init s = true -> get_session s h = Some x ->
+  forall p, In p (st_sobjs (fst (step s (OClose h)))) -> so_sess (snd p) <> h.
+Proof. intros s Hi Hx. apply (close_kills_session_objects s h x (inv_tok_reachable ops) Hi Hx). Qed.
+
+(* ---- 6. a concrete history ----------------------------------------------------------------------------- *)
+Definition per_pin : bytes := [49; 50; 51; 52].
+Definition per_tmpl (tok : N) (v : bytes) : template :=
+  [mkT CKA_CLASS (Some (le_encode 8 CKO_DATA)) 8; mkT CKA_TOKEN (Some [tok]) 1; mkT CKA_PRIVATE (Some [0]) 1;
+   mkT CKA_VALUE (Some v) (blen v)].
+(* a token, a R/W session (handle 1), token objects A (id 1, handle 2) and B (id 2, handle 3), a session object C (id 3, handle 4) *)
+Definition per_ops1 : list op :=
+  [OInit; OInitToken TFree (Some per_pin) 0; OOpen (TTok 0) 6;
+   OCreate 1 (per_tmpl 1 [10; 11]); OCreate 1 (per_tmpl 1 [20; 21; 22]); OCreate 1 (per_tmpl 0 [30])].
+(* destroy A, restart the library *)
+Definition per_ops2 : list op := [ODestroy 1 2; OFini; OInit].
+(* open a session again and create another token object *)
+Definition per_ops3 : list op := [OOpen (TTok 0) 6; OCreate 1 (per_tmpl 1 [40])].
+
+Example persist_example :
+  let s1 := exec init_state per_ops1 in
+  let s2 := exec s1 per_ops2 in
+  let s3 := exec s2 per_ops3 in
+  run init_state per_ops1 = [RRv CKR_OK; RRv CKR_OK; RHandle 1; RHandle 2; RHandle 3; RHandle 4] /\
+  run s1 per_ops2 = [RRv CKR_OK; RRv CKR_OK; RRv CKR_OK] /\
+  run s2 per_ops3 = [RHandle 1; RHandle 2] /\
+  oids s1 = [1; 2; 3] /\ oids s2 = [2] /\ oids s3 = [2; 4] /\
+  (exists a b, tok_objs s1 0 = Some [(1, a); (2, b)] /\
+               (* A is gone, B is there with identical attribute values, the session object C is gone *)
+               tok_objs s2 0 = Some [(2, b)] /\ st_sobjs s2 = [] /\
+               alookup CKA_VALUE b = Some (ABytes None [20; 21; 22]) /\
+               (* the new object got a new id, not the one of A *)
+               exists c, tok_objs s3 0 = Some [(2, b); (4, c)]) /\
+  (* and by the theorem: whatever happens next, id 1 never denotes an object again *)
+  (forall ops, ~ In 1 (oids (exec s3 ops))).
+Proof.
+  cbv zeta. repeat (split; [vm_compute; reflexivity|]). split.
+  - vm_compute. do 2 eexists. repeat (split; [reflexivity|]). eexists. reflexivity.
+  - intros ops. apply absent_never_reappears; [vm_compute; reflexivity|]. vm_compute. intros [H|[H|[]]]; discriminate.
+Qed.
